@@ -29,6 +29,24 @@ CLAIMED = {
         "(oracle), SciPy's solvers (event model), floating-point norm. Known finding: Krylov with "
         "maxit=0 reports success (KNOWN_FINDINGS.txt).",
    technique='Lean 4 invariant over the cycle loop / event fold + trace correspondence; independent residual oracle'),
+ 'C12': dict(
+   text="Proof (Lean 4) about the cache model SimM of Simulation (stored fields and synthetic data "
+        "per source-frequency pair, computed flag, cached misfit/gradient, stored residual incl. the "
+        "jtvec vector, b-fields, shared tolerance entry): an invariant (every stored quantity "
+        "belongs to the current model version) holds for new simulations and is preserved by every "
+        "public operation {compute, misfit, gradient, jvec, jtvec, get_efield, get_hfield, "
+        "clean(3), copy/to_dict/to_file(4), model update + clean}; hence for EVERY history (no "
+        "length bound) whatever an operation returns is what a fresh simulation of the current "
+        "model returns; 'computed' implies all pairs current; jtvec leaves no trace; tolerance "
+        "restored in every serialised form. Tie to code: random operation sequences on real "
+        "simulations (in memory and file based, copies via copy/dict/h5/npz/json), every returned "
+        "value and passive observable identified BIT FOR BIT with reference values of fresh "
+        "simulations per model version and compared with the model after every step.",
+   design='§4 C12',
+   note=TB % 'c12' + "Modelled not verified: the numerics of a solve (a value tagged with a model "
+        "version); determinism of identical computations (monitored). gridding='same' only "
+        "(estimated gridding options legitimately depend on the model at construction).",
+   technique='Lean 4 invariant by induction over operation histories + bit-exact trace correspondence against fresh simulations'),
  'C13': dict(
    text="Proof (Lean 4) about the model NoiseM of Survey's noise bookkeeping and of the data "
         "misfit: std^2 = nf^2 + (re |d|)^2, explicit value wins, none if nothing is set; add_noise "
